@@ -350,7 +350,25 @@ impl Property for C06 {
                                     br.describe()
                                 )
                             };
-                            ctl.case(my, &desc, &mut |cx| run_one(model, sols, kind, proof_kind, &cfg, br, &dir, my, cx));
+                            ctl.case(my, &desc, &mut |cx| {
+                                // The known finding "hint list omits a unit nogood" is identified by
+                                // its signature AND by the inputs on which it shows (hashes of the case
+                                // descriptions in /verif/known_c06_inputs.json): on any other input
+                                // the same kind of failure is reported under a signature that no
+                                // known finding matches.
+                                let found = cx.capture(|cx| run_one(model, sols, kind, proof_kind, &cfg, br, &dir, my, cx));
+                                for (sig, msg) in found {
+                                    if sig == "hint-list-omits-unit-nogood" {
+                                        let h = fnv64(&desc());
+                                        record_input(&sig, h);
+                                        if !listed_inputs().contains(&h) {
+                                            cx.violation(format!("unlisted-input:{sig}"), msg);
+                                            continue;
+                                        }
+                                    }
+                                    cx.violation(sig, msg);
+                                }
+                            });
                         }
                     }
                 }
@@ -705,4 +723,41 @@ fn run_one(
     }
     let _ = full_mask;
     let _ = pending_inference_ids;
+}
+
+fn fnv64(text: &str) -> u64 {
+    let mut h: u64 = 0xcbf29ce484222325;
+    for b in text.bytes() {
+        h ^= b as u64;
+        h = h.wrapping_mul(0x100000001b3);
+    }
+    h
+}
+
+/// Hashes of the case descriptions listed for the known finding (file
+/// /verif/known_c06_inputs.json, written by tools/gen_c06_inputs.py from recording runs; never at
+/// check time).
+fn listed_inputs() -> &'static std::collections::HashSet<u64> {
+    static LISTED: std::sync::OnceLock<std::collections::HashSet<u64>> = std::sync::OnceLock::new();
+    LISTED.get_or_init(|| {
+        let mut set = std::collections::HashSet::new();
+        if let Ok(text) = std::fs::read_to_string("/verif/known_c06_inputs.json") {
+            if let Ok(v) = serde_json::from_str::<Value>(&text) {
+                if let Some(a) = v["hint-list-omits-unit-nogood"].as_array() {
+                    set.extend(a.iter().filter_map(|x| x.as_u64()));
+                }
+            }
+        }
+        set
+    })
+}
+
+/// Recording mode (PV_C06_RECORD=<directory>): `signature <tab> hash` per listed-kind violation.
+fn record_input(sig: &str, hash: u64) {
+    use std::io::Write;
+    let Ok(dir) = std::env::var("PV_C06_RECORD") else { return };
+    let path = format!("{dir}/{}.txt", std::process::id());
+    if let Ok(mut f) = std::fs::OpenOptions::new().create(true).append(true).open(path) {
+        let _ = writeln!(f, "{sig}\t{hash}");
+    }
 }
